@@ -41,7 +41,7 @@ func stdSets() map[string][]string {
 // ---------------------------------------------------------------- C03 (+C12 response side, C04 light)
 func modeC03(thorough bool) {
 	in, err := newInst("c03", instOpts{
-		listeners: allListeners,
+		listeners: append(append([]string{}, allListeners...), "udpmr"),
 		upstreams: map[string]string{"u1": "udp", "u2": "tcp", "u3": "tcp+pipeline"},
 		sets:      map[string][]string{"s1": {"domain:z1.test"}, "s2": {"domain:z2.test"}, "s3": {"domain:z3.test"}, "s4": {"domain:z4.test"}, "s5": {"domain:z5.test"}},
 		rules:     []ruleSpec{{Set: "s1", Forward: "u1"}, {Set: "s2", Forward: "u2"}, {Set: "s3", Reject: 3}, {Set: "s4"}, {Set: "s5", Forward: "u3"}},
@@ -124,6 +124,22 @@ func modeC03(thorough bool) {
 		in.send("udp", "", jq, 4*time.Second, nil)
 		par(6, func(i int) { in.send("udp", "", mkq(fmt.Sprintf("%s.r0t60d0.z1.test.", uniq())), 3*time.Second, nil) })
 	}
+	// pipelined batches: several complete frames in one segment on every stream listener
+	par(9, func(i int) {
+		lst := []string{"gnet", "tcp", "tls"}[i%3]
+		var qs []qspec
+		for k := 0; k < 8; k++ {
+			q := mkq(fmt.Sprintf("%s.%s.%s.test.", uniq(), []string{"r0t60d0", "r0t60d15", "r3t10d0fA", "r0t60d4"}[k%4], []string{"z1", "z2", "z5", "z3"}[k%4]))
+			q.id = uint16(9000 + i*16 + k)
+			q.opt = k%2 == 0
+			qs = append(qs, q)
+		}
+		in.sendBatch(lst, "", qs, 8*time.Second)
+	})
+	// wildcard UDP listener with multi_routes: the response comes from the address the query was sent to
+	par(6, func(i int) {
+		in.send("udpmr", []string{"127.0.0.1", "127.0.0.2", "127.0.0.3"}[i%3], mkq(fmt.Sprintf("%s.r0t60d0.z1.test.", uniq())), 3*time.Second, nil)
+	})
 	// a query whose response cannot be delivered (source port 0: sendmsg fails): the listener keeps answering
 	if in.sendFromPort0(mkq(fmt.Sprintf("%s.r0t60d0.z1.test.", uniq())).wire()) {
 		time.Sleep(50 * time.Millisecond)
